@@ -471,15 +471,17 @@ K_CIS = K_CTL + ('bumble.controller.Controller.on_hci_le_set_cig_parameters_comm
                  'bumble.controller.Controller.on_hci_disconnect_command', 'bumble.controller.Controller.on_le_disconnected')
 
 
-@harness(pre=['0 <= n <= 1 and 0 <= bad <= 2 and 0 <= order <= 1 and 1 <= id0 <= 0xEF and 1 <= id1 <= 0xEF and id0 != id1'], family='procedures', twin=True, timeout=(120, 300), kernels=K_CIS,
-         bounds='CIS set-up between two virtual controllers over a live LE link: Set CIG Parameters with 1 or 2 CIS (ids symbolic), one LE Create CIS naming all of them (all handles valid, or the last CIS handle / the ACL handle not known), the peripheral host accepts the requests in either order: one Command Status per command; when Create CIS was accepted every CIS of the command is concluded by exactly one LE CIS Established at the central, and every accepted request by exactly one at the peripheral; a refused Create CIS is outside (no clause)')
-def cis_setup_concludes(n: int, bad: int, order: int, id0: int, id1: int) -> bool:
-    n, bad, order = C(n, 0, 1) + 1, C(bad, 0, 2), C(order, 0, 1)
+@harness(pre=['0 <= n <= 1 and 0 <= bad <= 2 and 0 <= order <= 1 and 0 <= re <= 2 and 1 <= id0 <= 0xEF and 1 <= id1 <= 0xEF and id0 != id1'], family='procedures', twin=True, timeout=(150, 400), kernels=K_CIS,
+         bounds='CIS set-up between two virtual controllers over a live LE link: Set CIG Parameters with 1 or 2 CIS (ids symbolic; optionally preceded by an earlier Set CIG Parameters for the same CIG with the same ids swapped or with a superset, which the new one replaces), one LE Create CIS naming all of them (all handles valid, or the last CIS handle / the ACL handle not known), the peripheral host accepts the requests in either order: one Command Status per command; when Create CIS was accepted every CIS of the command is concluded by exactly one LE CIS Established at the central, and every accepted request by exactly one at the peripheral; a refused Create CIS is outside (no clause)')
+def cis_setup_concludes(n: int, bad: int, order: int, re: int, id0: int, id1: int) -> bool:
+    n, bad, order, re = C(n, 0, 1) + 1, C(bad, 0, 2), C(order, 0, 1), C(re, 0, 2)
     with detloop.running() as loop:
         with untraced():
             c, peer, sink, psink, handle, phandle = _le_pair2(loop)
         if handle is None:
             return False
+        if re:
+            old = _set_cig(c, sink, loop, [id1, id0] if re == 1 else [id1, id0, 0xEF - 1 if 0xEF - 1 not in (id0, id1) else 0xEF - 3])
         cis = _set_cig(c, sink, loop, [id0, id1][:n])
         if len(cis) != n or len(set(cis)) != n or handle in cis:
             return False
